@@ -308,7 +308,7 @@ def picture_markers_oracle(data: bytes):
 def eval_images(state, arg):
     stream, sub = arg
     rng = random.Random(sub)
-    kn = docgen.Knobs(images=0.6, max_blocks=4, image_same_basename=0.05)
+    kn = docgen.Knobs(images=0.6, max_blocks=4, image_same_basename=0.05, bare_picture_part=0.15)
     pkg = docgen.gen_package(random.Random(sub), kn)
     data = pkg.to_bytes()
     res = {"stream": stream, "sub": sub, "features": sorted(pkg.features), "fails": [], "corr": None,
